@@ -48,7 +48,8 @@ def main():
         rc, o = sh("cargo test --workspace --no-fail-fast --offline 2>&1 | grep -E '^test result|FAILED|failed' ", cwd=wt, env=env)
         r["baseline_passes"] = ("FAILED" not in o and "failed;" in o and all(" 0 failed" in l for l in o.splitlines() if l.startswith("test result")))
         shutil.copy(os.path.join(d, "demo.rs"), os.path.join(wt, "tests", "seeded_demo.rs"))
-        rc1, o1 = sh("cargo test --offline %s --test seeded_demo 2>&1 | tail -15" % featarg, cwd=wt, env=env)
+        rc1, o1 = sh("cargo test --offline %s --test seeded_demo 2>&1" % featarg, cwd=wt, env=env)
+        o1 = o1[-1500:]
         r["demo_fails_with_change"] = rc1 != 0 and ("FAILED" in o1 or "panicked" in o1 or "failed" in o1)
         # framework check against the changed tree, from a private copy of /verif
         det = {}
@@ -67,7 +68,7 @@ def main():
         r["checks"] = det
         # restore and run the demo on the unchanged tree
         sh("git checkout -- .", cwd=wt)
-        rc2, o2 = sh("cargo test --offline %s --test seeded_demo 2>&1 | tail -6" % featarg, cwd=wt, env=env)
+        rc2, o2 = sh("cargo test --offline %s --test seeded_demo 2>&1" % featarg, cwd=wt, env=env)
         r["demo_passes_without_change"] = rc2 == 0
         sh("rm -f tests/seeded_demo.rs", cwd=wt)
         r["confirmed"] = bool(r["applies"] and r["builds_all_features"] and r["baseline_passes"] and r["demo_fails_with_change"] and r["demo_passes_without_change"])
